@@ -1,17 +1,26 @@
 package main
 
+import (
+	"fmt"
+	"go/token"
+
+	"golang.org/x/tools/go/ssa"
+)
+
 func init() {
 	props["C01"] = checkC01
 	props["C08"] = checkC08
 }
 
 func checkC01(c *Ctx) {
+	ruleOrphanExit(c)
 	ruleCtor(c)
 	ruleClamp(c)
 	ruleAlias(c)
 	ruleCursorPair(c)
 	ruleBufForward(c)
 	rulePadStart(c)
+	rulePadPrefix(c)
 	ruleFillLast(c)
 	ruleProvOffsets(c)
 	ruleWSSpec(c)
@@ -28,6 +37,7 @@ func checkC08(c *Ctx) {
 	ruleLineComplete(c)
 	ruleScanStart(c)
 	rulePadStart(c)
+	rulePadPrefix(c)
 	ruleBufForward(c)
 	ruleSameMachine(c)
 	ruleCtor(c)
@@ -83,5 +93,250 @@ func init() {
 			New: "\t\t\teolEnd = eolStart + 1\n\t\t\tif eolEnd < len(p.buf) && p.buf[eolEnd] == '\\n' {\n\t\t\t\teolEnd++\n\t\t\t}\n\t\t\tbreak\n", Expect: "LINE-COMPLETE"},
 		Control{Name: "neg-readline-err-test-as-switch", Props: []string{"C08"}, File: "parse.go", Negative: true,
 			Old: "\t\tif p.err != nil {\n\t\t\teolEnd = len(p.buf)\n\t\t\tbreak\n\t\t}\n\n\t\t// Grab more data", New: "\t\tif atEOF := p.err != nil; atEOF {\n\t\t\teolEnd = len(p.buf)\n\t\t\tbreak\n\t\t}\n\n\t\t// Grab more data"},
+	)
+}
+
+// PAD-PREFIX: what padNulls returns still holds the bytes in front of start.
+func rulePadPrefix(c *Ctx) {
+	c.Rule("PAD-PREFIX", "padNulls(b, start) widens the NULs from start on; the bytes before start are text of a block that is still pending (streaming: a read arrives while a block is open). Every slice it can return therefore derives from its parameter by re-slicing or appending (the prefix stays where it is, or append copies it), or — if it is freshly allocated — has the parameter's prefix copied into it (a copy from b or b[:…]) before the return. A fresh buffer that only receives the bytes from start on turns the pending prefix into zero bytes, which are then counted as NUL padding.")
+	p := c.P
+	pad := p.Func("padNulls")
+	if !c.NeedFunc("PAD-PREFIX", pad, "padNulls") || len(pad.Params) == 0 {
+		return
+	}
+	b := ssa.Value(pad.Params[0])
+	// derives(v): v is b, a re-slice of a derived value, an append whose first argument is derived, or a phi of such
+	var derives func(v ssa.Value, seen map[ssa.Value]bool) (ok bool, fresh []ssa.Value)
+	derives = func(v ssa.Value, seen map[ssa.Value]bool) (bool, []ssa.Value) {
+		if seen[v] {
+			return true, nil
+		}
+		seen[v] = true
+		switch x := v.(type) {
+		case *ssa.Parameter:
+			return v == b, nil
+		case *ssa.Slice:
+			return derives(x.X, seen)
+		case *ssa.Phi:
+			all := true
+			var fr []ssa.Value
+			for _, e := range x.Edges {
+				ok, f := derives(e, seen)
+				if !ok {
+					all = false
+				}
+				fr = append(fr, f...)
+			}
+			return all, fr
+		case *ssa.Call:
+			if ac, ok := isBuiltinCall(x, "append"); ok {
+				return derives(ac.Call.Args[0], seen)
+			}
+		case *ssa.MakeSlice:
+			return true, []ssa.Value{x}
+		case *ssa.Alloc:
+			return true, []ssa.Value{x}
+		}
+		return false, nil
+	}
+	n := 0
+	for i, r := range returnsOf(pad) {
+		if len(r.Results) != 1 {
+			continue
+		}
+		n++
+		key := fmt.Sprintf("padNulls:return#%d", i)
+		ok, fresh := derives(r.Results[0], map[ssa.Value]bool{})
+		if !ok {
+			c.Viol("PAD-PREFIX", key, r.Pos(), "the returned slice is neither derived from the parameter nor a fresh buffer the rule can follow: "+describeValue(r.Results[0]))
+			continue
+		}
+		bad := ""
+		for _, f := range fresh {
+			// a copy(dst, src) with dst derived from f (f itself or f[:…]) and src derived from b
+			copied := false
+			eachInstr(pad, func(in ssa.Instruction) {
+				call, ok := in.(*ssa.Call)
+				if !ok {
+					return
+				}
+				if cc, ok := isBuiltinCall(call, "copy"); ok {
+					dst, src := cc.Call.Args[0], cc.Call.Args[1]
+					for {
+						if sl, ok := dst.(*ssa.Slice); ok && (sl.Low == nil || isZero(sl.Low)) {
+							dst = sl.X
+							continue
+						}
+						break
+					}
+					srcOK, fr := derives(src, map[ssa.Value]bool{})
+					if dst == f && srcOK && len(fr) == 0 {
+						// the source must start at the beginning of b
+						s := src
+						lowZero := true
+						for {
+							if sl, ok := s.(*ssa.Slice); ok {
+								if sl.Low != nil && !isZero(sl.Low) {
+									lowZero = false
+								}
+								s = sl.X
+								continue
+							}
+							break
+						}
+						if lowZero {
+							copied = true
+						}
+					}
+				}
+			})
+			if !copied {
+				bad = "a freshly allocated buffer is returned into which the bytes in front of start were never copied"
+			}
+		}
+		c.Check(bad == "", "PAD-PREFIX", key, r.Pos(), bad)
+	}
+	if n == 0 {
+		c.Undecided("PAD-PREFIX", "padNulls:returns", pad.Pos(), "no return found")
+	}
+}
+
+func init() {
+	addControls(
+		Control{Name: "padnulls-grows-into-fresh-buffer-without-prefix", Props: []string{"C01", "C08"}, File: "parse.go",
+			Old: "\t\tb = append(b[:cap(b)], make([]byte, newLen-cap(b))...)[:newLen]\n", New: "\t\tgrown := make([]byte, newLen)\n\t\tcopy(grown[start:], b[start:])\n\t\tb = grown\n", Expect: "PAD-PREFIX/padNulls:return"},
+		Control{Name: "neg-padnulls-grows-into-fresh-buffer-with-copy", Props: []string{"C01", "C08"}, File: "parse.go", Negative: true,
+			Old: "\t\tb = append(b[:cap(b)], make([]byte, newLen-cap(b))...)[:newLen]\n", New: "\t\tgrown := make([]byte, newLen)\n\t\tcopy(grown, b)\n\t\tb = grown\n"},
+	)
+}
+
+// ORPHAN-EXIT: every way out of the paragraph-close hook accounts for the rest of the paragraph.
+func ruleOrphanExit(c *Ctx) {
+	c.Rule("ORPHAN-EXIT", "The hook that splits link reference definitions off a paragraph or setext heading returns the list of blocks that replaces it. When the definitions use up all of the content, what is left of a setext heading is its underline, kept aside as a paragraph of its own. Every return of the hook therefore yields either a list whose last element is the original block (something of it is left), or — where the original block is dropped — a list that had the kept-aside underline paragraph appended under a test that it exists (the join of `if orphan != nil { result = append(result, orphan) }`), or the result of a helper that is handed the list. A return that hands back the bare list on a path where the original block was consumed drops the underline: its bytes lie in no block although they are not white space.")
+	p := c.P
+	fn := p.Func("onCloseParagraph")
+	if !c.NeedFunc("ORPHAN-EXIT", fn, "onCloseParagraph") {
+		return
+	}
+	var orig *ssa.Parameter
+	for _, q := range fn.Params {
+		if typeName(deref(q.Type())) == "Block" {
+			orig = q
+		}
+	}
+	if orig == nil {
+		c.Undecided("ORPHAN-EXIT", "onCloseParagraph:block", fn.Pos(), "no block parameter")
+		return
+	}
+	// elements appended by an append call / held by a slice literal
+	elems := func(v ssa.Value) []ssa.Value {
+		var out []ssa.Value
+		sl, ok := v.(*ssa.Slice)
+		if !ok {
+			return nil
+		}
+		al, ok := sl.X.(*ssa.Alloc)
+		if !ok {
+			return nil
+		}
+		for _, r := range refsOf(al) {
+			if ia, ok := r.(*ssa.IndexAddr); ok {
+				for _, rr := range refsOf(ia) {
+					if st, ok := rr.(*ssa.Store); ok && st.Addr == ssa.Value(ia) {
+						out = append(out, st.Val)
+					}
+				}
+			}
+		}
+		return out
+	}
+	isOrig := func(v ssa.Value) bool {
+		q, ok := spilledParam(v)
+		return ok && q == orig
+	}
+	// the orphan: a *Block value that is nil on some paths (a phi with a nil edge, or a loaded cell that is stored nil / an allocation)
+	isOrphanLike := func(v ssa.Value) bool {
+		if ph, ok := v.(*ssa.Phi); ok {
+			for _, e := range ph.Edges {
+				if isNilConst(e) {
+					return true
+				}
+			}
+		}
+		if u, ok := v.(*ssa.UnOp); ok && u.Op == token.MUL {
+			if al, ok := u.X.(*ssa.Alloc); ok {
+				_ = al
+				return typeName(deref(v.Type())) == "Block"
+			}
+		}
+		return false
+	}
+	lastIsOrig := func(v ssa.Value) bool {
+		if call, ok := isBuiltinCall(v, "append"); ok && len(call.Call.Args) == 2 {
+			for _, e := range elems(call.Call.Args[1]) {
+				if isOrig(e) {
+					return true
+				}
+			}
+		}
+		for _, e := range elems(v) { // []*Block{originalBlock}
+			if isOrig(e) {
+				return true
+			}
+		}
+		return false
+	}
+	n := 0
+	for i, r := range returnsOf(fn) {
+		if len(r.Results) != 1 {
+			continue
+		}
+		n++
+		key := fmt.Sprintf("onCloseParagraph:return#%d", i)
+		v := r.Results[0]
+		switch {
+		case lastIsOrig(v):
+			c.OK("ORPHAN-EXIT", key, r.Pos(), "ends with the original block")
+			continue
+		}
+		if call, ok := v.(*ssa.Call); ok {
+			if _, isB := call.Call.Value.(*ssa.Builtin); !isB {
+				c.OK("ORPHAN-EXIT", key, r.Pos(), "result of a helper that is handed the list")
+				continue
+			}
+		}
+		good := false
+		if ph, ok := v.(*ssa.Phi); ok && len(ph.Edges) == 2 {
+			for k := 0; k < 2; k++ {
+				plain, with := ph.Edges[k], ph.Edges[1-k]
+				if call, ok := isBuiltinCall(with, "append"); ok && len(call.Call.Args) == 2 && call.Call.Args[0] == plain {
+					for _, e := range elems(call.Call.Args[1]) {
+						if isOrphanLike(e) {
+							// the appending predecessor is entered on the non-nil edge of a test of that value
+							for _, b := range fn.Blocks {
+								if iff := blockIf(b); iff != nil {
+									if x, nilIdx, ok := nilTest(iff.Cond); ok && x == e && edgeDominates(b, 1-nilIdx, call.Block()) {
+										good = true
+									}
+								}
+							}
+						}
+					}
+				}
+			}
+		}
+		c.Check(good, "ORPHAN-EXIT", key, r.Pos(), "the hook returns a list that neither ends with the original block nor had the kept-aside underline paragraph appended under a test that it exists")
+	}
+	if n < 4 {
+		c.Undecided("ORPHAN-EXIT", "instance-count", fn.Pos(), fmt.Sprintf("%d returns found; at least 4 confirmed by hand", n))
+	}
+}
+
+func init() {
+	addControls(
+		Control{Name: "refdef-exit-without-setext-orphan", Props: []string{"C01"}, File: "blocks.go",
+			Old: "\t\tfirstChild := nodeIndexForPosition(originalBlock.inlineChildren, r.pos)\n\t\tif firstChild < 0 {\n\t\t\tif setextOrphanParagraph != nil {\n\t\t\t\tresult = append(result, setextOrphanParagraph)\n\t\t\t}\n\t\t\treturn result\n\t\t}",
+			New: "\t\tfirstChild := nodeIndexForPosition(originalBlock.inlineChildren, r.pos)\n\t\tif firstChild < 0 {\n\t\t\treturn result\n\t\t}", Expect: "ORPHAN-EXIT/onCloseParagraph:return",
+			Why: "'[foo]: /url \"title\"\\n===\\n': the underline line then belongs to no block"},
 	)
 }
